@@ -50,3 +50,19 @@ class Rig(object):
 def opcode_set(name):
     import pyscsi.pyscsi.scsi_enum_command as E
     return getattr(E, name)
+
+
+def override_probe(cls, helper, transform=None):
+    """a class derived from a library class that overrides one helper classmethod (delegating to the inherited one, counting the calls,
+    optionally transforming the result): the public entry points of the derived class must go through the override wherever the base
+    class goes through its own helper.  (`super` cannot be named in classes built by the library's metaclass: the inherited function is
+    called through __func__.)"""
+    base = getattr(cls, helper).__func__
+    calls = [0]
+
+    def wrapper(klass, *a, **k):
+        calls[0] += 1
+        r = base(klass, *a, **k)
+        return transform(r) if transform is not None else r
+    derived = type(cls)("Derived" + cls.__name__, (cls,), {helper: classmethod(wrapper)})
+    return derived, calls
